@@ -147,11 +147,28 @@ def ref_tgt_case(draw, nref=(3, 25), ntgt=(1, 30), geoms=GEOMS, nres_max=1,
     elif tdt == "int":
         tpos = np.round(tpos)                # whole numbers of nm
     return {"geom": cls, "s": draw(scale_factor()), "tgt_dtype": tdt,
+            "late_bond": draw(st.one_of(st.none(), st.none(), st.none(), st.integers(0, 1000))),
             "ref": gen.with_coords(ref, rpos), "tgt": gen.with_coords(tgt, tpos)}
 
 
 def build_pair(case):
-    ref = build_molecule(case["ref"])
+    late = case.get("late_bond")
+    if late is not None and len(case["ref"]["edges"]) >= 2:
+        # the reference topology is loaded without one of its bonds, USED once (a throw-away map), and the missing bond
+        # is then added in place with AtomTop.connect - called on the lower- or the higher-numbered atom
+        drop = case["ref"]["edges"][late % len(case["ref"]["edges"])]
+        ref = build_molecule(dict(case["ref"], edges=[e for e in case["ref"]["edges"] if e != drop]))
+        tgt0 = build_molecule(case["tgt"])
+        try:
+            with env.quiet():
+                gaddlemaps.ExchangeMap(ref, tgt0, 1.0)(ref)
+        except Exception:      # noqa: BLE001   (e.g. no atom with two bonds yet)
+            pass
+        top = ref.molecule_top
+        i, j = (drop[0], drop[1]) if late % 2 else (drop[1], drop[0])
+        lib("connect", top[i].connect, top[j])
+    else:
+        ref = build_molecule(case["ref"])
     tgt = build_molecule(case["tgt"])
     tdt = case.get("tgt_dtype")
     if tdt:
